@@ -57,6 +57,8 @@ var qhTypes = []ptypeDef{
 	{"f64", map[string]any{"type": "number"}},
 	{"f32", map[string]any{"type": "number", "format": "float"}},
 	{"time", map[string]any{"type": "string", "format": "date-time"}},
+	// a date-time with a declared Go layout: the lexical space is that layout's, not RFC 3339's
+	{"time1123", map[string]any{"type": "string", "format": "date-time", "x-goag-go-time-format": "time.RFC1123"}},
 }
 
 var queryNames = []string{"q", "page", "limit", "user_id", "ids", "from", "sort-by", "flag", "page[size]", "order by", "filter:x"}
@@ -70,6 +72,7 @@ var lexemes = map[string][]string{
 	"bool":  {"true", "false", "1", "0", "t", "F", "TRUE", "True", "yes", "", "tRUE", "T", "f", "FALSE", "False"},
 	"f64":   {"1.5", "1e3", "-0", "Inf", "-Inf", "1e400", "abc", "", "0x1p-2", "1_0", ".5", "5.", "1e-400", "NaN", "1.5,2"},
 	"f32":   {"1.5", "1e3", "3.4e38", "3.5e38", "1e-46", "abc", "", "16777217", "-0"},
+	"time1123": {"Tue, 02 Jan 2024 03:04:05 GMT", "Mon, 02 Jan 2006 15:04:05 UTC", "2024-01-02T03:04:05Z", "", "Tue, 02 Jan 2024", "Tue, 32 Jan 2024 03:04:05 GMT", "tue, 02 jan 2024 03:04:05 GMT"},
 	"time":  {"2024-01-02T03:04:05Z", "2024-01-02T03:04:05.123456789+02:00", "2024-01-02", "", "2024-13-01T00:00:00Z", "2024-01-02t03:04:05z", "2024-01-02T03:04:05", "0000-01-01T00:00:00Z"},
 }
 
@@ -90,6 +93,12 @@ func leafDump(tag, lex string) string {
 		return "f:" + strconv.FormatUint(math.Float64bits(float64(float32(v))), 16)
 	case "time":
 		t, err := time.Parse(time.RFC3339Nano, lex)
+		if err != nil {
+			return "none"
+		}
+		return "t:" + strconv.FormatInt(t.UnixNano(), 10)
+	case "other:time:time.RFC1123":
+		t, err := time.Parse(time.RFC1123, lex)
 		if err != nil {
 			return "none"
 		}
@@ -597,7 +606,7 @@ func facetRoute(args []string) error {
 			lexList = append(lexList, lx)
 		}
 		sort.Strings(lexList)
-		for _, tag := range []string{"f64", "f32", "time"} {
+		for _, tag := range []string{"f64", "f32", "time", "other:time:time.RFC1123"} {
 			for _, lx := range lexList {
 				fmt.Fprintf(cw, "leaf\t%s\t%s\t%s\n", tag, hexs(lx), leafDump(tag, lx))
 			}
